@@ -124,18 +124,22 @@ func (sh *shape) params() (names, kinds []string) {
 
 // arg is one actual argument: a keyword (kw != "") or the fixnum 100+index.
 type arg struct {
-	kw  string
-	val int
+	kw    string
+	val   int
+	isNil bool // an explicit nil argument (token "n")
 }
 
 func (a arg) text() string {
+	if a.isNil {
+		return "nil"
+	}
 	if a.kw != "" {
 		return ":" + a.kw
 	}
 	return strconv.Itoa(a.val)
 }
 
-// parseArgs: tokens separated by ',' : "v" = a fixnum (value 100+index), anything else = keyword of that name.
+// parseArgs: tokens separated by ',' : "v" = a fixnum (value 100+index), "n" = an explicit nil, anything else = keyword of that name.
 func parseArgs(s string) []arg {
 	if s == "" {
 		return nil
@@ -145,6 +149,8 @@ func parseArgs(s string) []arg {
 	for i, t := range toks {
 		if t == "v" {
 			out[i] = arg{val: 100 + i}
+		} else if t == "n" {
+			out[i] = arg{isNil: true}
 		} else {
 			out[i] = arg{kw: t}
 		}
@@ -174,6 +180,7 @@ const (
 	mKeywordSkipsOptional
 	mKeyDefaultIgnored
 	mUnknownKeyClobbersParam
+	mExplicitNilIsAbsent
 )
 
 var mutationNames = map[mutation]string{
@@ -185,6 +192,7 @@ var mutationNames = map[mutation]string{
 	mKeywordSkipsOptional:    "a keyword-looking positional argument is not bound to &optional but starts the key section",
 	mKeyDefaultIgnored:       "absent &key gets nil instead of its default",
 	mUnknownKeyClobbersParam: "an unknown key whose name equals a parameter name overwrites that parameter",
+	mExplicitNilIsAbsent:     "an explicit nil for an &optional or &key parameter counts as absent (the default is used)",
 }
 
 // outcome of a bind: err != "" (reason) or the rendered value list.
@@ -236,7 +244,9 @@ func bind(sh *shape, args []arg, v variant, m mutation) outcome {
 			if m == mKeywordSkipsOptional && args[ai].kw != "" && 0 < len(sh.key) {
 				break
 			}
-			bound[optName(i)] = args[ai].text()
+			if !(m == mExplicitNilIsAbsent && args[ai].isNil) {
+				bound[optName(i)] = args[ai].text()
+			}
 			ai++
 		}
 	}
@@ -306,6 +316,9 @@ func bind(sh *shape, args []arg, v variant, m mutation) outcome {
 				continue
 			}
 			if _, has := bound[keyName(ki)]; has && !v.dupRight {
+				continue
+			}
+			if m == mExplicitNilIsAbsent && ks[i+1].isNil {
 				continue
 			}
 			bound[keyName(ki)] = ks[i+1].text()
